@@ -8,6 +8,7 @@ batched piecewise-affine apply, the CachedPWA memo as a state machine).
 import json
 
 from . import common
+from . import trans_c09
 
 PROP = "C09"
 INFO = dict(
@@ -15,31 +16,50 @@ INFO = dict(
               "location of index_alpha_beta modelled array operation by array operation over the rationals and "
               "proved equal to its per-point reading: failure-mask exactness, batch-size / grouping / permutation "
               "independence, barycentric image; chains and WithDims as folds; memo state machine refines the "
-              "stateless function over every operation history) + regenerated write / hidden-state tables with "
-              "`decide` obligations + model/implementation correspondence and fresh-transform oracle on random "
-              "histories",
-    level_text="Theorems over an executable model of Transform._apply_batched, AbstractPWA._apply_batched / _apply, "
-               "alpha_beta, containment_from_alpha_beta, index_alpha_beta (numpy's nonzero + repeated-index "
-               "assignment: the last containing triangle stays), pwa_point_in_pointcloud, TransformChain._apply, "
-               "WithDims._apply and the CachedPWA memo: batched = unbatched for every k>=1 and every list, also "
-               "for chains; the piecewise-affine failure mask has one entry per input point and flags exactly the "
-               "points outside every source triangle, batched (any k, any grouping) or not; (alpha, beta) are the "
-               "barycentric coordinates, containment = closed triangle, image = barycentric combination of the "
-               "target vertices; the result is equivariant under every permutation of the input points; for "
-               "every finite interleaving of applies and in-place edits the memoised transform returns the "
-               "stateless piecewise-affine result.  The behaviours coded before the repairs are refuted by "
-               "kernel-checked witnesses.  Tied to /repo by (i) the correspondence: real histories (array reuse, "
-               "in-place edits, inputs 1e-7 apart), all batch sizes 1..n+2, zero/one point, integer dtypes, "
-               "in/out-of-domain mixes, meshes with overlapping triangles and holes, random chains, pixel grids "
-               "against point clouds, each diffed against the Lean driver running the same definitions over exact "
+              "stateless function over every operation history) + SOURCE-TO-LEAN TRANSLATION of 13 anchored functions "
+              "on every run (harness/py2lean2.py Translator2T + harness/trans_c09.py -> Generated/C09Src.lean) with "
+              "equality obligations `translated = model definition` for all arguments (GenProps/C09Src.lean) + "
+              "regenerated write / hidden-state tables with `decide` obligations + model/implementation "
+              "correspondence and fresh-transform oracle on random histories",
+    level_text="Theorems over an executable model of Transform.apply / _apply_batched, AbstractPWA._apply_batched / "
+               "_apply, alpha_beta, containment_from_alpha_beta, index_alpha_beta (numpy's nonzero + repeated-index "
+               "assignment: the last containing triangle stays), PythonPWA / CachedPWA.index_alpha_beta, "
+               "TransformChain._apply / _apply_batched, WithDims._apply, pwa_point_in_pointcloud: batched = unbatched "
+               "for every valid batch size and every list, also for chains; the piecewise-affine failure mask has one "
+               "entry per input point and flags exactly the points outside every source triangle, batched (any k, any "
+               "grouping) or not; (alpha, beta) are the barycentric coordinates, containment = closed triangle, image = "
+               "barycentric combination of the target vertices; the result is equivariant under every permutation of "
+               "the input points; apply on a shape = apply on its points; for every finite interleaving of applies and "
+               "in-place edits the memoised transform returns the stateless piecewise-affine result.  The behaviours "
+               "coded before the repairs are refuted by kernel-checked witnesses.  These 13 functions are no longer "
+               "only transcribed: their SOURCE TEXT in the working tree is translated to Lean on every run (for loops "
+               "over range(0, n, k) as folds, try / except / else with the handler seeing the state at the point of "
+               "the raise, closures, attribute writes as state) and each translation is proved equal, for all "
+               "arguments, to the definition of Core/C09Src.lean of the same name, which Props/C09Src.lean proves "
+               "equal to the model; batched_eq_unbatched_translated, pwa_mask_exact_translated, "
+               "pwa_translated_end_to_end, chain_pwa_batched_translated, cachedPwa_history_pure_translated, "
+               "apply_shape_translated state the property about the translated functions themselves.  A harmless "
+               "rewrite of the Python (renamed temporaries, re-ordered statements, inverted tests, early returns, De "
+               "Morgan) keeps the proofs; a changed decision (another bound, argument, branch, order of attribute "
+               "writes) or source outside the vocabulary breaks an obligation, followed by the directed search.  "
+               "Further tied to /repo by (i) the correspondence: real histories (array reuse, in-place edits, inputs "
+               "1e-7 apart), all batch sizes 1..n+2, zero/one point, integer dtypes, in/out-of-domain mixes, meshes "
+               "with overlapping triangles and holes, points EXACTLY ON shared edges / vertices / the outline and a "
+               "hair outside on meshes whose arithmetic is exact in floating point, random chains, pixel grids against "
+               "point clouds, each diffed against the Lean driver running the Core/C09Src definitions over exact "
                "rationals; (ii) regenerated tables: attribute writes of every public application on live objects of "
-               "every Transform subclass, class coverage, places for module-level state, measured global writes; "
-               "(iii) an independent fresh-transform / exact-geometry oracle that decides the property on the real code.",
-    level_note="Trusted: Lean kernel; axioms propext/Classical.choice/Quot.sound; Python harness; driver parser. "
-               "Modelled, not verified: the per-point map of the non-piecewise transform classes is an abstract "
-               "function (affine members of chains are modelled exactly); numpy slicing/vstack/nonzero/fancy-"
-               "assignment semantics as transcribed; float rounding is absorbed by a 1e-9 tolerance and by rejecting "
-               "query points within 1e-6 (barycentric units) of a triangle edge, decided exactly.",
+               "every Transform subclass, class coverage, places for module-level state, measured global writes, "
+               "defaults of batch_size; (iii) an independent fresh-transform / exact-geometry oracle that decides the "
+               "property on the real code.",
+    level_note="Trusted: Lean kernel; axioms propext/Classical.choice/Quot.sound; Python harness; driver parser; the "
+               "translator (harness/py2lean2.py, self-test tools/test_py2lean2.py: 384 evaluations Python vs #eval) and "
+               "the C09 rule tables (harness/trans_c09.py: which numpy expression is which operation of "
+               "Core/C09Src.lean - einsum / nonzero / fancy indexing / broadcasting as transcribed there, exercised by "
+               "the correspondence because the driver executes exactly those definitions).  Modelled, not verified: "
+               "the per-point map of the non-piecewise transform classes is an abstract function (affine members of "
+               "chains are modelled exactly); Delaunay triangulation (scipy) is an input; float rounding is absorbed "
+               "by a 1e-9 tolerance and, on general meshes, by rejecting query points within 1e-6 (barycentric units) "
+               "of a triangle edge, decided exactly; on power-of-two meshes nothing is rejected.",
     rule="a case = one history (2-10 applies with reuse / in-place edits / near-equal inputs) or one (points, batch "
          "size, in/out-of-domain mask) triple on one transform class, or one (mesh, query points, batch size / "
          "permutation) point-location case, or one (chain, points, batch size) case, or one (point cloud, pixel grid, "
@@ -51,13 +71,16 @@ INFO = dict(
              "`transformClasses_covered`, `hiddenState_ok` (no mutable module global / class attribute / default / "
              "function attribute / memoising wrapper / closure cell in menpo/transform/** and menpo/image/boolean.py); "
              "state kept outside those modules (numpy, other packages) is decided by the fresh-transform oracle only",
-             "points within 1e-6 of a triangle edge (in particular points shared by two triangles): the model decides "
-             "them exactly (closed triangles, last containing triangle), the theorems cover them and "
-             "`triImage_shared_edge` shows that on a consistent mesh the choice does not show in the result, but the "
-             "correspondence does not sample them because the float computation may decide them either way"],
-    assumptions=["numpy computations on equal values and equal shapes are deterministic to 1e-10"],
+             "BooleanImage.constrain_to_pointcloud itself (bounding-box restriction of the pixel indices, slice "
+             "assignment of the mask, functools.partial passing batch_size on) is not translated: the function it "
+             "delegates to (pwa_point_in_pointcloud) is; the wrapper is decided by the oracle on every pixel (also on "
+             "the outline) for every batch size, and by the obligation that its batch_size default is None"],
+    assumptions=["numpy computations on equal values and equal shapes are deterministic to 1e-10",
+                 "for a repeated index in a fancy-index assignment numpy keeps the last value (documented numpy "
+                 "behaviour; decides which of several containing triangles index_alpha_beta reports, not the "
+                 "property: on a consistent mesh the image is the same, theorem triImage_shared_edge)"],
     design_ref="DESIGN.md section 6, C09")
-IMPORTS = ["MenpoModel.Props.C09", "MenpoModel.GenProps.C09"]
+IMPORTS = ["MenpoModel.Props.C09", "MenpoModel.GenProps.C09", "MenpoModel.GenProps.C09Src"]
 GEN_THEOREMS = [
     "MenpoModel.GenProps.C09.applyWrites_ok",
     "MenpoModel.GenProps.C09.transformClasses_covered",
@@ -123,7 +146,33 @@ THEOREMS = [
     "MenpoModel.C09.pure_of_no_writes",
     "MenpoModel.C09.pure_of_no_writes_interleaved",
     "MenpoModel.C09.apply_eq_fresh",
-] + GEN_THEOREMS
+    # the definitions that mirror the source text (= the translation of the working tree, GenProps/C09Src) are the model
+    "MenpoModel.C09.pyRange_slices",
+    "MenpoModel.C09.applyBatchedSrc_eq",
+    "MenpoModel.C09.batched_eq_unbatched_src_hom",
+    "MenpoModel.C09.batched_eq_unbatched_src",
+    "MenpoModel.C09.applyBatchedSrc_error_one_batch",
+    "MenpoModel.C09.pwaApplyBatchedSrc_eq_fold",
+    "MenpoModel.C09.pwa_mask_exact_src",
+    "MenpoModel.C09.pwaApplyBatchedSrc_eq_core",
+    "MenpoModel.C09.alphaBetaSrc_eq",
+    "MenpoModel.C09.containmentSrc_eq",
+    "MenpoModel.C09.pythonIabSrc_eq",
+    "MenpoModel.C09.pwaApplySrc_eq",
+    "MenpoModel.C09.pwa_src_end_to_end",
+    "MenpoModel.C09.chainApplySrc_eq",
+    "MenpoModel.C09.chain_batched_src",
+    "MenpoModel.C09.chain_pwa_batched_src",
+    "MenpoModel.C09.cachedIabSrc_hit_iff",
+    "MenpoModel.C09.step2_eq_cachedIabSrc",
+    "MenpoModel.C09.runSrc_eq_run2",
+    "MenpoModel.C09.cachedPwa_history_pure_src",
+    "MenpoModel.C09.withDimsSrc_eq",
+    "MenpoModel.C09.withDims_batched_src",
+    "MenpoModel.C09.applySrc_arr",
+    "MenpoModel.C09.applySrc_shape",
+    "MenpoModel.C09.pointInPointcloudSrc_eq",
+] + GEN_THEOREMS + trans_c09.GEN_THEOREMS
 
 TOL = 1e-9
 
@@ -489,6 +538,238 @@ def mesh_case(ctx, rng, lines, pending):
                   "apply(x[sigma]) is not apply(x)[sigma] for sigma=%r" % (sigma,), dict(rp, sigma=sigma))
 
 
+# ------------------------------------------------------------------------------- points ON edges and vertices
+# On a mesh whose triangles all have a power-of-two Gram determinant (axis-aligned grids of spacing 2^j, cells cut by
+# either diagonal, big right triangles over 2x2 cells) and for dyadic query points every float operation of alpha_beta
+# is exact (sums and products of small dyadic numbers, d = 1/2^m), so the float decision IS the exact decision, also
+# for points that lie exactly on a shared edge or vertex.  These cases are therefore compared without any margin.
+
+def exact_mesh(rng, np):
+    """(kind, points, trilist, spacing): a grid mesh with power-of-two Gram determinants"""
+    g = rng.choice([2, 2, 3])
+    h = float(rng.choice([1, 2, 4]))
+    ox, oy = rng.randint(-8, 8) / 4.0, rng.randint(-8, 8) / 4.0
+    pts = np.array([[ox + h * i, oy + h * j] for i in range(g + 1) for j in range(g + 1)])
+
+    def v(i, j):
+        return i * (g + 1) + j
+    tl = []
+    for i in range(g):
+        for j in range(g):
+            a, b, c, d = v(i, j), v(i, j + 1), v(i + 1, j), v(i + 1, j + 1)
+            tl += [[a, b, c], [b, d, c]] if rng.random() < 0.5 else [[a, b, d], [a, d, c]]
+    kind = rng.choice(["grid", "grid", "shuffled", "holes", "overlap", "overlap-first"])
+    big = [[v(0, 0), v(2, 0), v(0, 2)], [v(2, 2), v(0, 2), v(2, 0)], [v(0, 0), v(2, 2), v(0, 2)]]
+    if kind == "holes":
+        for _ in range(rng.randint(1, 3)):
+            tl.pop(rng.randrange(len(tl)))
+    elif kind == "overlap":
+        tl = tl + [rng.choice(big)]
+    elif kind == "overlap-first":
+        tl = [rng.choice(big)] + tl
+    if kind != "grid":
+        rng.shuffle(tl)
+        tl = [rng.sample(t, 3) for t in tl]
+    return kind, pts, tl, h
+
+
+def exact_query_points(rng, np, pts, tl, h, n):
+    """dyadic query points, most of them ON vertices / edges of the triangulation; (array, kinds)"""
+    out, kinds = [], []
+    lo, hi = pts.min(0), pts.max(0)
+    for _ in range(n):
+        r = rng.random()
+        t = tl[rng.randrange(len(tl))]
+        A, B, C = pts[t[0]], pts[t[1]], pts[t[2]]
+        if r < 0.2:
+            p, k = pts[rng.choice(t)], "vertex"
+        elif r < 0.55:
+            P, Q = rng.sample([A, B, C], 2)
+            w = rng.choice([0.25, 0.5, 0.5, 0.75, 0.125])
+            p, k = P + w * (Q - P), "edge"
+        elif r < 0.7:
+            p, k = A + 0.25 * (B - A) + 0.5 * (C - A), "interior"
+        elif r < 0.85:
+            # a hair outside the bounding box of the mesh, or on its boundary line beyond a corner
+            side = rng.randrange(4)
+            u = rng.randint(-2, 10) * h / 4.0
+            eps = h / 64.0
+            p = [np.array([lo[0] - eps, lo[1] + u]), np.array([hi[0] + eps, lo[1] + u]),
+                 np.array([lo[0] + u, lo[1] - eps]), np.array([lo[0] + u, hi[1] + eps])][side]
+            k = "just-outside"
+        else:
+            p, k = np.array([lo[0] + rng.randint(-8, 24) * h / 4.0, lo[1] + rng.randint(-8, 24) * h / 4.0]), "lattice"
+        out.append([float(p[0]), float(p[1])])
+        kinds.append(k)
+    return np.array(out, dtype=float).reshape(len(out), 2), kinds
+
+
+def closed_containing(spts, trilist, P):
+    """numbers of the triangles whose CLOSED hull contains P (exact)"""
+    cont = []
+    for t, (i, j, k) in enumerate(trilist):
+        w = tri_weights(spts[i], spts[j], spts[k], P)
+        if w is not None and min(w) >= 0:
+            cont.append(t)
+    return cont
+
+
+def exact_mesh_case(ctx, rng, lines, pending):
+    """points exactly on shared edges / vertices (and hairs outside), mixed with out-of-domain points, all batch sizes"""
+    import numpy as np
+    import menpo.transform as mt
+    from menpo.transform.piecewiseaffine.base import PythonPWA, TriangleContainmentError
+    from menpo.shape import PointCloud, TriMesh
+    site = "C09/pwa-edges"
+    kind, pts, tl, h = exact_mesh(rng, np)
+    tpts = pts.dot(np.array([[1.25, 0.25], [-0.5, 1.5]])) + np.array([rng.randint(-8, 8) / 4.0, rng.randint(-8, 8) / 4.0]) + \
+        np.array([[rng.randint(-2, 2) / 8.0, rng.randint(-2, 2) / 8.0] for _ in range(len(pts))])
+    spts_f, tpts_f = fpts(pts), fpts(tpts)
+    n = rng.choice([1, 2, 3, 4, 5, 6, 7, 8])
+    x, kinds = exact_query_points(rng, np, pts, tl, h, n)
+    if rng.random() < 0.35:
+        # all in the domain: only boundary / interior points of triangles
+        keep = [i for i in range(n) if closed_containing(spts_f, tl, (common.frac(x[i][0]), common.frac(x[i][1])))]
+        x, kinds = x[keep].reshape(len(keep), 2), [kinds[i] for i in keep]
+        n = len(x)
+    conts = [closed_containing(spts_f, tl, (common.frac(p[0]), common.frac(p[1]))) for p in x]
+    want_mask = [not c for c in conts]
+    all_in = not any(want_mask)
+    for k_ in kinds:
+        ctx.count("edge-point:" + k_)
+    ctx.count("edge-mesh:" + kind)
+    ctx.count("edge-multi-containing", sum(1 for c in conts if len(c) > 1))
+    ctx.count("edge-case:" + ("all-in" if all_in else "all-out" if all(want_mask) else "mixed"))
+    tlarr = np.array(tl)
+
+    def make(cls):
+        return cls(TriMesh(pts.copy(), trilist=tlarr.copy()), PointCloud(tpts.copy()))
+
+    rp = {"mesh": "exact-" + kind, "spacing": h, "source": pts.tolist(), "target": tpts.tolist(), "trilist": tl,
+          "points": x.tolist(), "point_kinds": kinds, "closed_containing_triangles": conts}
+    try:
+        idx, al, be = make(PythonPWA).index_alpha_beta(x.copy())
+        got_iab = ("ok", idx.tolist(), al.tolist(), be.tolist())
+    except TriangleContainmentError as e:
+        got_iab = ("tce", np.asarray(e.points_outside_source_domain))
+    except Exception as e:     # noqa: BLE001
+        got_iab = ("exc", type(e).__name__)
+    ctx.case(("edge-iab", kind, pts.tobytes(), str(tl), x.tobytes()), nontrivial=n >= 1,
+             sample={"mesh": kind, "kinds": kinds, "outside": want_mask})
+    if all_in:
+        ok = got_iab[0] == "ok" and len(got_iab[1]) == n and all(got_iab[1][i] in conts[i] for i in range(n))
+        ctx.check(ok, site + "/index_alpha_beta", "triangle-not-containing",
+                  "index %r, the (closed) triangles containing the points are %r" % (
+                      got_iab[1] if got_iab[0] == "ok" else fmt_tce(got_iab), conts), rp)
+    else:
+        ok = got_iab[0] == "tce" and got_iab[1].tolist() == want_mask
+        ctx.check(ok, site + "/index_alpha_beta", "mask-unbatched",
+                  "failure %r, points outside every (closed) source triangle are %r" % (
+                      got_iab[1].tolist() if got_iab[0] == "tce" else got_iab[:2], want_mask), rp)
+    if n:
+        cid = "e%d" % len(lines)
+        lines.append("%s iab %s %s" % (cid, mesh_tokens(pts, tl), common.fmat(x)))
+        pending[cid] = ("iab", got_iab, rp)
+    exp_img = [[image_exact(spts_f, tpts_f, tl, (common.frac(p[0]), common.frac(p[1])), t) for t in c]
+               for p, c in zip(x, conts)]
+    for cls_name, cls in (("PiecewiseAffine", mt.PiecewiseAffine), ("PythonPWA", PythonPWA)):
+        for k in [None] + list(range(1, n + 2)):
+            got = safe_apply(make(cls), x.copy(), batch_size=k)
+            ctx.case(("edge-apply", cls_name, kind, pts.tobytes(), str(tl), x.tobytes(), k),
+                     nontrivial=k is not None and (1 < k < n or k > n > 1))
+            ctx.count("edge-batch:%s" % ("None" if k is None else "k<n" if k < n else "k=n" if k == n else "k>n"))
+            rk = dict(rp, cls=cls_name, batch_size=k)
+            if all_in:
+                ok = got[0] == "ok" and got[1].shape == (n, 2) and all(
+                    any(all(common.close(got[1][i][d], e[d], 64.0) for d in range(2)) for e in exp_img[i])
+                    for i in range(n))
+                ctx.check(ok, site + "/" + cls_name, "image",
+                          "apply(batch_size=%r) = %s, the barycentric images (per containing triangle) are %r" % (
+                              k, got[1].tolist() if got[0] == "ok" else fmt_tce(got),
+                              [[[float(v) for v in e] for e in es] for es in exp_img]), rk)
+            else:
+                ok = got[0] == "tce" and got[1].tolist() == want_mask
+                ctx.check(ok, site + "/" + cls_name, "mask-batched" if k is not None else "mask-unbatched",
+                          "apply(batch_size=%r): %s, points outside every (closed) source triangle are %r" % (
+                              k, got[1].tolist() if got[0] == "ok" else fmt_tce(got), want_mask), rk)
+            if n and (cls_name == "PiecewiseAffine" or k is None):
+                cid = "e%d" % len(lines)
+                lines.append("%s pwa %d %s %s %s" % (cid, k or 0, mesh_tokens(pts, tl), common.fmat(tpts), common.fmat(x)))
+                pending[cid] = ("pwa", got, rk)
+    # the same points through TransformChain([Translation, PiecewiseAffine]) (exact: the offset is a multiple of 1/4)
+    if n and rng.random() < 0.5:
+        off = [rng.randint(-8, 8) / 4.0, rng.randint(-8, 8) / 4.0]
+        xs = x - np.array(off)
+        for k in [None] + sorted({1, 2, max(1, n - 1), n, n + 1}):
+            t = mt.TransformChain([mt.Translation(np.array(off)), make(mt.PiecewiseAffine)])
+            got = safe_apply(t, xs.copy(), batch_size=k)
+            ctx.case(("edge-chain", kind, pts.tobytes(), str(tl), xs.tobytes(), k), nontrivial=k is not None and 1 < k < n)
+            ctx.count("edge-chain")
+            rk = dict(rp, translation=off, points=xs.tolist(), batch_size=k)
+            if all_in:
+                ctx.check(got[0] == "ok" and got[1].shape == (n, 2), site + "/ChainWithPWA", "spurious-failure",
+                          "all points in the (closed) domain but apply(batch_size=%r) gave %s" % (
+                              k, fmt_tce(got) if got[0] != "ok" else got[1].shape), rk)
+            else:
+                ctx.check(got[0] == "tce" and got[1].tolist() == want_mask, site + "/ChainWithPWA",
+                          "mask-batched" if k is not None else "mask-unbatched",
+                          "apply(batch_size=%r): %s, points leaving the (closed) domain are %r" % (
+                              k, got[1].tolist() if got[0] == "ok" else fmt_tce(got), want_mask), rk)
+            cid = "e%d" % len(lines)
+            lines.append("%s chainpwa-fixed %d %s %s %s %s" % (cid, k or 0, common.fqs(off), mesh_tokens(pts, tl),
+                                                             common.fmat(tpts), common.fmat(xs)))
+            pending[cid] = ("pwa", got, rk)
+
+
+def exact_boolean_case(ctx, rng, lines, pending):
+    """pwa_point_in_pointcloud / constrain_to_pointcloud on a rectangle with power-of-two area: every pixel — also those on
+    the outline, the corners and the diagonal the triangulation chose — is decided exactly; any batch size"""
+    import numpy as np
+    from menpo.image import BooleanImage
+    from menpo.image.boolean import pwa_point_in_pointcloud
+    from menpo.transform.piecewiseaffine import PiecewiseAffine
+    from menpo.shape import PointCloud
+    site = "C09/constrain_to_pointcloud-edges"
+    wdt, hgt = rng.choice([(4, 4), (2, 4), (4, 2), (2, 2), (8, 2), (4, 8)])
+    r0, c0 = rng.randint(0, 3), rng.randint(0, 3)
+    H, W = r0 + hgt + rng.randint(1, 3), c0 + wdt + rng.randint(1, 3)
+    pc = PointCloud(np.array([[r0, c0], [r0 + hgt, c0], [r0, c0 + wdt], [r0 + hgt, c0 + wdt]], dtype=float))
+    img = BooleanImage.init_blank((H, W))
+    tl = PiecewiseAffine(pc, pc).source.trilist.tolist()
+    spts_f = fpts(pc.points)
+    indices = img.indices()
+    inside = [bool(closed_containing(spts_f, tl, (common.frac(p[0]), common.frac(p[1])))) for p in indices]
+    rp0 = {"shape": [H, W], "points": pc.points.tolist(), "trilist": tl}
+    for k in [None, 1, 2, 3, rng.randint(4, H * W), H * W, H * W + 2]:
+        ctx.case(("ebimg", H, W, k, pc.points.tobytes()), nontrivial=True)
+        ctx.count("edge-constrain_to_pointcloud")
+        try:
+            got = img.constrain_to_pointcloud(pc, batch_size=k).mask.reshape(-1).tolist()
+            bad = [indices[i].tolist() for i in range(len(indices)) if bool(got[i]) != inside[i]]
+            ctx.check(not bad, site, "mask-not-containment",
+                      "batch_size=%r: mask differs from the exact (closed) containment test at pixels %r" % (k, bad[:6]),
+                      dict(rp0, batch_size=k))
+        except Exception as e:     # noqa: BLE001
+            ctx.fail(site, "raises", "batch_size=%r raised %s: %s" % (k, type(e).__name__, str(e)[:80]), dict(rp0, batch_size=k))
+        sel = list(range(len(indices)))
+        rng.shuffle(sel)
+        sel = sel[:rng.randint(1, len(sel))]
+        q = indices[sel]
+        try:
+            m = pwa_point_in_pointcloud(pc, q, batch_size=k)
+            gotp = ("ok", [bool(v) for v in np.asarray(m).tolist()])
+        except Exception as e:     # noqa: BLE001
+            gotp = ("exc", type(e).__name__)
+        ctx.case(("epip", H, W, k, pc.points.tobytes(), tuple(sel)), nontrivial=True)
+        rk = dict(rp0, batch_size=k, pixels=q.tolist())
+        ctx.check(gotp[0] == "ok" and gotp[1] == [inside[i] for i in sel], "C09/pwa_point_in_pointcloud-edges",
+                  "mask-not-containment", "batch_size=%r: result %r, exact (closed) containment %r" % (
+                      k, gotp[1] if gotp[0] == "ok" else gotp, [inside[i] for i in sel]), rk)
+        cid = "e%d" % len(lines)
+        lines.append("%s pip %d %s %s" % (cid, k or 0, mesh_tokens(pc.points, tl), common.fmat(q)))
+        pending[cid] = ("pip", (gotp, [True] * len(sel)), rk)
+
+
 # ------------------------------------------------------------------------------- chains and WithDims
 
 def chain_case(ctx, rng, lines, pending):
@@ -841,7 +1122,7 @@ def boolean_image_case(ctx, rng, lines=None, pending=None):
 N_ZOO = 28
 
 
-def explore(ctx, n_hist, n_batch, n_bimg, lines, pending, n_mesh=0, n_chain=0):
+def explore(ctx, n_hist, n_batch, n_bimg, lines, pending, n_mesh=0, n_chain=0, n_edge=0):
     rng = ctx.rng
     for rnd in range(max(1, n_hist // N_ZOO)):
         z = zoo(rng)
@@ -863,6 +1144,11 @@ def explore(ctx, n_hist, n_batch, n_bimg, lines, pending, n_mesh=0, n_chain=0):
             chain_pwa_case(ctx, rng, lines, pending)
     for _ in range(n_chain):
         chain_case(ctx, rng, lines, pending)
+    # last, so that the cases above are the same as before for a given seed
+    for i in range(n_edge):
+        exact_mesh_case(ctx, rng, lines, pending)
+        if i % 6 == 0:
+            exact_boolean_case(ctx, rng, lines, pending)
 
 
 def compare_model(op, obs, reply):
@@ -1096,7 +1382,12 @@ def _lean_strs(xs):
     return "[%s]" % ", ".join('"%s"' % x for x in xs)
 
 
-def generated(ctx):
+TABLE_REL = "MenpoModel/Generated/C09Writes.lean"
+TABLE_TARGETS = ["MenpoModel.Generated.C09Writes", "MenpoModel.GenProps.C09"]
+
+
+def generated(ctx, build=True):
+    """the tables measured on the live classes; with build=False only writes the notes and returns the file text"""
     before = globals_digest()
     table = write_table()
     after = globals_digest()
@@ -1120,8 +1411,9 @@ def generated(ctx):
     ctx.notes["transform_classes"] = classes
     ctx.notes["hidden_state_places"] = hidden
     ctx.notes["global_writes"] = gwrites
-    ok = common.build_generated(ctx, {"MenpoModel/Generated/C09Writes.lean": gen},
-                                ["MenpoModel.Generated.C09Writes", "MenpoModel.GenProps.C09"], len(GEN_THEOREMS))
+    if not build:
+        return {TABLE_REL: gen}
+    ok = common.build_generated(ctx, {TABLE_REL: gen}, TABLE_TARGETS, len(GEN_THEOREMS))
     if not ok and ctx.broken_obligations:
         bo = ctx.broken_obligations[-1]
         src = open(common.os.path.join(common.LEAN, "MenpoModel", "GenProps", "C09.lean")).read().splitlines()
@@ -1144,25 +1436,102 @@ def generated(ctx):
                           "hidden state places": [], "global writes": []}
 
 
+def _broken_theorems(bo, rel, namespace):
+    """names of the theorems of lean/<rel> in which the build errors of a broken obligation lie"""
+    src = open(common.os.path.join(common.LEAN, rel)).read().splitlines()
+    broken = set()
+    base = common.os.path.basename(rel)
+    for e in bo.get("errors", []) + bo.get("output_tail", "").splitlines():
+        m = common.re.search(common.re.escape(base) + r":(\d+):", e)
+        if m:
+            for ln in range(min(int(m.group(1)), len(src)) - 1, -1, -1):
+                mm = common.re.match(r"theorem (\w+)", src[ln])
+                if mm:
+                    broken.add(namespace + "." + mm.group(1))
+                    break
+    return sorted(broken)
+
+
+def generated_src(ctx, build=True):
+    """the anchored functions translated from the source text of the working tree (harness/trans_c09.py) and the
+    obligations `translated = Core/C09Src definition`; True when they all hold (build=False: notes + the file text)"""
+    files, reasons = trans_c09.generated_files()
+    ctx.notes["translated_functions"] = [t.rsplit(".", 1)[1][:-3] for t in trans_c09.GEN_THEOREMS if t.endswith("_eq")]
+    ctx.notes["property_theorems_about_translated_functions"] = [
+        t.rsplit(".", 1)[1] for t in trans_c09.GEN_THEOREMS if "translated" in t]
+    if reasons:
+        ctx.notes["untranslatable"] = reasons
+    if not build:
+        return files
+    n0 = len(ctx.broken_obligations)
+    ok = common.build_generated(ctx, files, trans_c09.GEN_TARGETS, trans_c09.N_OBLIGATIONS)
+    if not ok and len(ctx.broken_obligations) > n0:
+        bo = ctx.broken_obligations[-1]
+        names = _broken_theorems(bo, common.os.path.join("MenpoModel", "GenProps", "C09Src.lean"),
+                                 "MenpoModel.GenProps.C09Src")
+        bo["obligation"] = names or "MenpoModel.GenProps.C09Src.* (the translated file does not elaborate)"
+        bo["meaning"] = ("the source text of the named function(s) of the working tree no longer translates to the "
+                         "definition the C09 theorems are about (Core/C09Src.lean)")
+        if reasons:
+            bo["untranslatable"] = reasons
+    return ok
+
+
+# which families of cases exercise which translated function: a broken obligation triples their share of the search
+SEARCH_BIAS = {"applyBatched_eq": ("batch", "chain"), "pwaApplyBatched_eq": ("batch", "mesh", "edge"),
+               "chainApplyBatched_eq": ("batch", "mesh", "chain"), "chainApply_eq": ("chain", "batch"),
+               "withDims_eq": ("chain", "batch"), "apply_eq": ("hist", "batch"), "cachedIab_eq": ("hist",),
+               "pythonIab_eq": ("mesh", "edge"), "indexAlphaBeta_eq": ("mesh", "edge"), "containment_eq": ("mesh", "edge"),
+               "alphaBeta_eq": ("mesh", "edge"), "pwaApply_eq": ("mesh", "edge"), "pointInPointcloud_eq": ("bimg", "edge"),
+               "applyDefaults_ok": ("bimg", "batch")}
+
+
 def search(ctx):
     lines, pending = [], {}
     before = ctx.evaluations
-    explore(ctx, 600, 300, 10, lines, pending, 60, 60)
+    budget = dict(hist=600, batch=300, bimg=10, mesh=60, chain=60, edge=150)
+    for bo in ctx.broken_obligations:
+        names = bo.get("obligation")
+        for nm in (names if isinstance(names, list) else []):
+            for fam in SEARCH_BIAS.get(nm.rsplit(".", 1)[-1], ()):
+                budget[fam] = min(budget[fam] * 3, 2000)
+    ctx.notes["search_budget"] = budget
+    explore(ctx, budget["hist"], budget["batch"], budget["bimg"], lines, pending, budget["mesh"], budget["chain"],
+            budget["edge"])
     ctx.searched += ctx.evaluations - before
     return bool(ctx.failures)
 
 
 def run(ctx):
-    generated(ctx)
-    if ctx.broken_obligations:
-        # the model's assumption about where state lives no longer matches the live code: audit what still
-        # builds, then let the oracle search for a history on which the new state shows
-        common.prepare_lean(ctx, PROP, IMPORTS[:1], [t for t in THEOREMS if t not in GEN_THEOREMS])
-    else:
-        common.prepare_lean(ctx, PROP, IMPORTS, THEOREMS, targets=["MenpoModel.Props.C09", "MenpoModel.Drive.C09",
-                                                                   "MenpoModel.GenProps.C09"])
+    n0 = len(ctx.broken_obligations)
+    # one build for both groups of regenerated files (each build waits for the shared lake lock); only when it fails
+    # are the groups built one by one, to name the obligations that broke
+    files = dict(generated(ctx, build=False))
+    files.update(generated_src(ctx, build=False))
+    n_obl = len(GEN_THEOREMS) + trans_c09.N_OBLIGATIONS
+    tables_ok = src_ok = common.build_generated(ctx, files, TABLE_TARGETS + trans_c09.GEN_TARGETS, n_obl)
+    if not tables_ok:
+        del ctx.broken_obligations[n0:]
+        ctx.gen_obligations -= n_obl
+        generated(ctx)
+        tables_ok = len(ctx.broken_obligations) == n0
+        src_ok = generated_src(ctx)
+    # a broken obligation means that what the model assumes (where state lives / what the source says) no longer
+    # matches the live code: audit what still builds, then let the oracle search for an input on which it shows
+    imports, theorems = [IMPORTS[0]], [t for t in THEOREMS if t not in GEN_THEOREMS and t not in trans_c09.GEN_THEOREMS]
+    targets = ["MenpoModel.Props.C09", "MenpoModel.Drive.C09"]
+    if tables_ok:
+        imports.append(IMPORTS[1])
+        theorems += GEN_THEOREMS
+        targets.append("MenpoModel.GenProps.C09")
+    if src_ok:
+        imports.append(IMPORTS[2])
+        theorems += trans_c09.GEN_THEOREMS
+        targets.append("MenpoModel.GenProps.C09Src")
+    common.prepare_lean(ctx, PROP, imports, theorems, targets=targets)
     lines, pending = [], {}
-    explore(ctx, ctx.n(240, 5000), ctx.n(120, 2400), ctx.n(8, 60), lines, pending, ctx.n(120, 2400), ctx.n(100, 2000))
+    explore(ctx, ctx.n(240, 5000), ctx.n(120, 2400), ctx.n(8, 60), lines, pending, ctx.n(120, 2400), ctx.n(100, 2000),
+            ctx.n(90, 1500))
     if lines:
         model = common.run_driver(PROP, lines)
         for cid, (op, obs, rp) in pending.items():
